@@ -569,7 +569,13 @@ def eval_case(fc, case, opts, args):
         return "rejected-by-einx", [], run, []
     rec = run["rec"]
     if rec is None or not rec["solved"]:
-        raise core.MachineryError(f"no capture for {sig(fc, case, opts)}")
+        # A freshly adapted, never seen function object was not traced: the call was answered by a compiled function that
+        # belongs to another adapter.  If the new function was never invoked the call cannot have used it as elementary
+        # operation (a failing input in itself); otherwise the solved expressions are unknown and the case is skipped.
+        if not run["log"]:
+            return "FAIL", ["the call returned although the freshly adapted function was invoked 0 times and nothing was traced: the result comes from "
+                            "the compiled function of a different adapted function"], run, ["served-by-foreign-adapter"]
+        return "no-capture", [], run, []
     solved = rec["solved"][-1]
     problems, tags = check_invocation(fc, case, opts, args, run, solved)
     try:
@@ -863,6 +869,8 @@ def run(ctx):
                        lambda c, a, fc=fc, opts=opts: (lambda r: r[1] if r[0] == "FAIL" else None)(eval_case(fc, c, opts, a)))
             if st == "ok" and use_model and model_bad < 3 and run_["probe"] is not None:
                 model_bad += model_checks(ctx, fc, case, opts, run_)
+    if ctx.hist.get("status:no-capture", 0):
+        ctx.tie_broken("correspondence:adapt-capture", f"{ctx.hist['status:no-capture']} calls of freshly adapted functions were not traced (served from another adapter's cache)")
     if ctx.hist.get("status:rejected-by-einx", 0) > 0.1 * max(1, ctx.evaluations):
         raise core.MachineryError(f"einx rejects {ctx.hist['status:rejected-by-einx']} of {ctx.evaluations} generated calls: the generator is out of step with the accepted notation")
 
